@@ -61,6 +61,10 @@ type c44Base struct {
 	CliMax  uint16
 	Suites  []uint16
 	CliCert bool
+	// Listener: serve through a real bfe_tls listener (NewListener + accept loop) and apply every
+	// configuration change with bfe_tls.UpdateListener while the accept loop is idle, as bfe_server's
+	// reload paths do; otherwise each connection gets bfe_tls.Server(conn, config) directly
+	Listener bool
 }
 
 type c44Mut struct {
@@ -317,7 +321,14 @@ func c44CheckHistory(tb ev.TB, rec *ev.Rec, base *c44Base, probes []c44Probe) {
 		}
 		return cfg
 	}
-	res := runPair(srv1, cli(base.CliMax), []byte("first"), []byte("tsrif"))
+	mk := directServer(srv1)
+	var ts *tlsServer
+	if base.Listener {
+		ts = newTLSServer(srv1)
+		defer ts.stop()
+		mk = ts.maker()
+	}
+	res := runPairVia(mk, cli(base.CliMax), []byte("first"), []byte("tsrif"))
 	if res.inconclusive {
 		rec.Excluded("watchdog")
 		return
@@ -484,6 +495,15 @@ func c44CheckHistory(tb ev.TB, rec *ev.Rec, base *c44Base, probes []c44Probe) {
 		rec.Sample(map[string]any{"base": base, "probe": p})
 
 		srv2 := s2.build(caches)
+		mk := directServer(srv2)
+		if ts != nil {
+			if err := ts.reload(srv2); err != nil {
+				rec.Excluded("update-listener-failed")
+				continue
+			}
+			mk = ts.maker()
+			rec.Class("via-listener-reload")
+		}
 		resumed := false
 		if p.Via == "raw" {
 			h := &rawHello{Vers: helloVers, Suites: helloSuites, Curves: []uint16{23, 24, 25}}
@@ -497,7 +517,7 @@ func c44CheckHistory(tb ev.TB, rec *ev.Rec, base *c44Base, probes []c44Probe) {
 			} else {
 				h.SessionID = cred
 			}
-			ff, _, inc := sendRawHello(srv2, h)
+			ff, _, inc := sendRawHelloVia(mk, h)
 			if inc {
 				rec.Excluded("watchdog")
 				continue
@@ -520,7 +540,7 @@ func c44CheckHistory(tb ev.TB, rec *ev.Rec, base *c44Base, probes []c44Probe) {
 			}
 		} else {
 			mc.mut = func(t []byte) []byte { return cred }
-			r2 := runPair(srv2, cli(base.CliMax), []byte("second"), []byte("dnoces"))
+			r2 := runPairVia(mk, cli(base.CliMax), []byte("second"), []byte("dnoces"))
 			mc.mut = nil
 			if r2.inconclusive {
 				rec.Excluded("watchdog")
@@ -608,6 +628,46 @@ func c44CheckTicket(tb ev.TB, rec *ev.Rec, class string, keyGen int, in []byte, 
 	}
 }
 
+// ticketRetention: the state parsed from ticket A must still equal what was sealed after other
+// tickets have been decrypted (a handshake keeps using sessionState.masterSecret / certificates
+// while other connections check their tickets). Returns a description of the difference or "".
+func ticketRetention(a *bfe_tls.VerifHS, others []*bfe_tls.VerifHS) (diff string, pan any) {
+	cfg := &bfe_tls.Config{SessionTicketKey: c44Keys[1]}
+	pan = ev.Try(func() {
+		ta, err := bfe_tls.VerifEncryptTicket(cfg, a)
+		if err != nil {
+			diff = "encryptTicket: " + err.Error()
+			return
+		}
+		sa, ok := bfe_tls.VerifDecryptTicket(cfg, ta)
+		if !ok {
+			diff = "genuine ticket rejected"
+			return
+		}
+		for _, o := range others {
+			tb, err := bfe_tls.VerifEncryptTicket(cfg, o)
+			if err != nil {
+				continue
+			}
+			bfe_tls.VerifDecryptTicket(cfg, tb)
+		}
+		if sa.Vers != a.Vers || sa.CipherSuite != a.CipherSuite {
+			diff = "version/suite changed"
+		} else if !bytes.Equal(sa.MasterSecret, a.MasterSecret) {
+			diff = fmt.Sprintf("master secret now %x, sealed %x", sa.MasterSecret, a.MasterSecret)
+		} else if len(sa.Certificates) != len(a.Certificates) {
+			diff = "certificate count changed"
+		} else {
+			for i := range sa.Certificates {
+				if !bytes.Equal(sa.Certificates[i], a.Certificates[i]) {
+					diff = fmt.Sprintf("certificate %d changed", i)
+				}
+			}
+		}
+	})
+	return
+}
+
 func c44DirectBatch(rt *rapid.T, rec *ev.Rec) {
 	st := &bfe_tls.VerifHS{Kind: "sessionState",
 		Vers:         rapid.SampledFrom([]uint16{vSSL30, vTLS10, vTLS11, vTLS12}).Draw(rt, "vers"),
@@ -623,6 +683,21 @@ func c44DirectBatch(rt *rapid.T, rec *ev.Rec) {
 		rt.Fatalf("encryptTicket: %v", err)
 	}
 	c44CheckTicket(rt, rec, "genuine", 1, genuine, st)
+	// a second, different state of the same size decrypted afterwards must not disturb the first
+	other := &bfe_tls.VerifHS{Kind: "sessionState", Vers: st.Vers ^ 1, CipherSuite: st.CipherSuite ^ 0x0101, MasterSecret: patternBytes(len(st.MasterSecret), 0xEE)}
+	for _, c := range st.Certificates {
+		other.Certificates = append(other.Certificates, patternBytes(len(c), 0xDD))
+	}
+	if len(st.MasterSecret) > 0 || len(st.Certificates) > 0 {
+		rec.Case(fmt.Sprintf("retain:%x", genuine), true, "direct", "direct/state-retained-across-decrypts")
+		diff, pan := ticketRetention(st, []*bfe_tls.VerifHS{other, other})
+		if pan != nil {
+			rec.Fail(rt, "decrypt-ticket-panic", map[string]any{"state": st}, "decryptTicket panicked: %v", pan)
+		} else if diff != "" {
+			rec.Fail(rt, "ticket-state-overwritten-by-later-ticket", map[string]any{"state": st, "later": other},
+				"state parsed from a ticket changed after another ticket was decrypted: %s", diff)
+		}
+	}
 	c44CheckTicket(rt, rec, "genuine-under-rotated-key", 2, genuine, nil)
 	c44CheckTicket(rt, rec, "genuine-under-other-mac-key", 3, genuine, nil)
 	n := rapid.IntRange(4, 12).Draw(rt, "nmut")
@@ -680,6 +755,7 @@ func drawC44Base(rt *rapid.T) *c44Base {
 	if rapid.Bool().Draw(rt, "srvlist") {
 		s.Suites = drawSubset16(rt, c41SrvSuiteIDs, 6, "srvsuites")
 	}
+	b.Listener = rapid.Bool().Draw(rt, "listener")
 	return b
 }
 
@@ -716,6 +792,7 @@ func TestC44(t *testing.T) {
 			base.Mode, base.Suites = mode[:6], []uint16{0xcca8}
 		}
 		base.Srv.Cert, base.Srv.HasRules = "rsa", true
+		base.Listener = true
 		base.Srv.Rules = map[string]c41Rule{"": {Grade: "C", Chacha: true}}
 		base.Srv.Key, base.Srv.CacheOn, base.Srv.CacheID, base.Srv.CA = 1, true, 1, "client"
 		var probes []c44Probe
